@@ -99,18 +99,17 @@ def parse_operand(tok):
 
 def run(rep, tier):
     cx = Ctx(rep, "std")
+    rep.where_by_opcode = cx.opcode_where(cx.roles.api("disassembler::to_insn_vec"))
     F = cx.F
-    tab, src = asmmodel.mnemonic_table(F)
-    if tab is None:
-        rep.ob("anchor", "table", False, "assembler mnemonic table", found=src)
-        return
+    tab = asmmodel.reference_table()          # documented names (used by R16.p only); resolution goes through the assembler
     root = cx.roles.api("disassembler::to_insn_vec")
     lm = models.LoopModel(F, root, min_arms=100)
     pcn, pcid = models.loop_counter_name(F, root)
     ev = symex.Evaluator(F)
+    ev.unroll = True
     ra = rep.rule("R16.a", "rendered text of every assembler-expressible opcode assembles back to the same opcode and used fields", floor=110)
-    rn = rep.rule("R16.n", "opcodes the assembler cannot express do not resolve to a mnemonic", floor=3)
-    enc_fn = None
+    rn = rep.rule("R16.n", "opcodes the assembler cannot express do not resolve to a mnemonic", floor=0)
+    spell = {}
     for v, d in sorted(isa.TABLE.items()):
         variants = [None]
         if d["kind"] == "end":
@@ -146,32 +145,41 @@ def run(rep, tier):
                     continue
                 mn, optoks = tokenise(pieces)
                 mname = "".join(x if isinstance(x, str) else (str(T.sval(x[2])) if T.is_k(x[2]) else "?") for x in mn)
-                ent = tab.get(mname)
-                if ent is None:
+                ops = [parse_operand(t) for t in optoks]
+                kinds = tuple({"Register": "R", "Integer": "I", "Memory": "M"}.get(o[2], "?") if o is not None else "?" for o in ops)
+                # is `mname <operand kinds>` something the assembler can spell at all (for some operand values)?
+                ck = (mname, kinds)
+                if ck not in spell:
+                    if "?" in kinds:
+                        # the operand text is not in the grammar: the instruction still counts as expressible
+                        # when the assembler knows the mnemonic with some operand shape
+                        spell[ck] = any(any(x["res"] == "Ok" for x in (asmmodel.resolve(F, ev, mname, sh) or [])) for sh in asmmodel.SHAPES)
+                    else:
+                        spell[ck] = any(x["res"] == "Ok" for x in (asmmodel.resolve(F, ev, mname, kinds) or []))
+                if not spell[ck]:
                     expressible = False if expressible is None else expressible
                     continue
                 expressible = True
-                itype, payload, base = ent
-                ops = [parse_operand(t) for t in optoks]
                 if any(o is None for o in ops):
                     problems.append("operand text outside the assembler grammar: %s" % ["".join(x if isinstance(x, str) else "{%s}" % x[1] for x in t) for t in optoks])
                     continue
-                pay = (("0", T.K(64, payload)),) if payload is not None else ()
-                ity = symex.struct(asmmodel.ITYPE, itype, pay)
-                if enc_fn is None:
-                    _o, enc_fn = asmmodel.encode_paths(F, ev, "NoOperand", ())
                 conds0 = [models.canon(c, pcn) for c in s.conds]
                 st0 = symex.St(conds=tuple(conds0))
-                res = ev.run_fn(enc_fn, [ity, T.K(8, base), ("array", tuple(ops))], st0) or []
-                oks = [(x, s2) for x, s2 in res if isinstance(x, tuple) and x[0] == "struct" and x[2] == "Ok" and s2.feasible]
+                res = asmmodel.resolve(F, ev, mname, ops=ops, st=st0)
+                if res is None:
+                    problems.append("the assembler's resolution is not evaluable")
+                    continue
+                if any(x["res"] in ("panic", "?") for x in res):
+                    problems.append("a path of the assembler neither returns Ok nor Err")
+                oks = [(x["insns"], x["conds"]) for x in res if x["res"] == "Ok"]
                 if not oks:
                     # rejected text is allowed only through a range check (e.g. negative immediates)
-                    if not res:
-                        problems.append("encode produced no result")
                     continue
-                for x, s2 in oks:
-                    insn = symex.sfield(x, "0")
-                    f = {k: y for k, y in insn[3]}
+                for insns, conds2 in oks:
+                    if not insns:
+                        problems.append("accepted but nothing emitted")
+                        continue
+                    f = insns[0]
                     exp = {"opc": T.K(8, v)}
                     used = _used_fields(d, var)
                     for fld, w in FIELDW.items():
@@ -183,7 +191,7 @@ def run(rep, tier):
                         exp["imm"] = ("v", "imm", 32)
                     for fld, e in exp.items():
                         g = f.get(fld)
-                        if g != e and not _same_under(g, e, list(s2.conds)):
+                        if g != e and not _same_under(g, e, list(conds2)):
                             problems.append("field %s: reassembled %s, original %s" % (fld, _sh(g), _sh(e)))
                     n_ok += 1
             if expressible:
@@ -224,7 +232,7 @@ def _used_fields(d, var):
         return {"imm"}
     if k == "ldind":
         return {"src", "imm"}
-    if k in ("ldx", "stx"):
+    if k in ("ldx", "stx", "xadd"):
         return {"dst", "src", "off"}
     if k == "st":
         return {"dst", "off", "imm"}
